@@ -93,5 +93,16 @@ func (r *responseStorer) StoreResponse(
 		refs[refIndex] = refEntry // Update existing response reference
 	}
 
+	// Keep a single reference per stored response: an equal reference may
+	// already be listed without having been selected for this request (e.g.
+	// "Vary: *" never matches, or a validation reply changed Vary to that of
+	// another entry) — otherwise the index grows with every such request.
+	refs = slices.DeleteFunc(refs, func(ref *ResponseRef) bool {
+		return ref != nil && ref != refEntry &&
+			ref.ResponseID == refEntry.ResponseID &&
+			ref.Vary == refEntry.Vary &&
+			maps.Equal(ref.VaryResolved, refEntry.VaryResolved)
+	})
+
 	return r.cache.SetRefs(urlKey, refs)
 }
